@@ -349,7 +349,11 @@ func (s *v4Server) addLease(l *dhcpsvc.Lease) (err error) {
 	s.ipIndex[l.IP] = l
 
 	s.leases = append(s.leases, l)
-	s.leasedOffsets.set(offset, true)
+	if inOffset {
+		// Static leases may lie outside of the range, in which case offset is
+		// zero and doesn't denote any address.
+		s.leasedOffsets.set(offset, true)
+	}
 
 	return nil
 }
